@@ -101,7 +101,7 @@ def rule_rm(ctx):
                     kw[k] = tgt.attrs[k]
             return it.run_function(Fn(f, c), [], kw)
 
-        paths = explore(p, run, {"inline": lambda fi, node: False})
+        paths = explore(p, run, {"inline": lambda fi, node: fi.parent is not None and fi.parent is f})
         ctx.paths_enumerated += len(paths)
         for pa in paths:
             if pa.outcome != "return" or len(paths) != 1:
@@ -229,6 +229,20 @@ def rule_registry(ctx):
     ctx.floor("C16.REGISTRY", "registry writes", n, 3)
     te = p.cls("indi.client.client.BaseClient").find_method("trigger_event")
     loops = [x for x in ast.walk(te.node) if isinstance(x, ast.For)]
+    live = len(loops) == 1 and ast.unparse(loops[0].iter) == "self.callbacks"
+    if live:
+        # the dispatch loop walks the live list: removal must mutate that list in place; rebinding the attribute
+        # leaves a dispatch in progress iterating the old list, i.e. invoking callbacks after their removal
+        for fi in p.functions:
+            if fi.cls is None or fi.cls.name != "BaseClient" or fi.name == "__init__":
+                continue
+            for node in walk_no_nested(fi.node):
+                if isinstance(node, (ast.Assign, ast.AnnAssign, ast.AugAssign)):
+                    tg = node.targets if isinstance(node, ast.Assign) else [node.target]
+                    for t in tg:
+                        if isinstance(t, ast.Attribute) and t.attr == "callbacks" and isinstance(t.value, ast.Name) and t.value.id == "self":
+                            bad = True
+                            ctx.violated("C16.REGISTRY", fi.short, "the callback registry is rebound (self.callbacks = ...) while trigger_event iterates the live list: a dispatch in progress keeps walking the old list and still invokes a callback that has just been removed", fi=fi, node=node, text="registry-rebound")
     ok = len(loops) == 1 and ast.unparse(loops[0].iter) in ("self.callbacks", "list(self.callbacks)", "tuple(self.callbacks)", "self.callbacks[:]", "self.callbacks.copy()")
     ctx.check(ok and not bad, "C16.REGISTRY", te.short, "single registry, read at dispatch time", "trigger_event does not iterate the live registry (a removed callback could still be invoked / a cached copy used)", fi=te, text="dispatch-source")
 
